@@ -109,6 +109,8 @@ def run_tlc(module, cfg, workdir, workers=8, timeout=1200, simulate=None, seed=N
            "out": out_path, "rc": rc, "wall": wall, "timeout": rc == -9}
     viol_lines = []
     in_viol = False
+    last_state = []
+    nstates_in_trace = 0
     with open(out_path, errors="replace") as f:
         for line in f:
             line = line.rstrip("\n")
@@ -127,12 +129,21 @@ def run_tlc(module, cfg, workdir, workers=8, timeout=1200, simulate=None, seed=N
             m = re.match(r"^The depth of the complete state graph search is (\d+)", line)
             if m:
                 res["depth"] = int(m.group(1))
+            if re.match(r"^State \d+:", line):
+                last_state = []
+                nstates_in_trace += 1
+            elif in_viol and (line.startswith("/\\") or (last_state and line.startswith(" "))):
+                last_state.append(line)
             if line.startswith("Error:"):
                 in_viol = True
             if in_viol and len(viol_lines) < 400:
                 viol_lines.append(line)
     if viol_lines:
         res["violation"] = "\n".join(viol_lines)
+        res["last_state"] = "\n".join(last_state)
+        res["trace_len"] = nstates_in_trace
+        m = re.search(r"Invariant (\w+) is violated", res["violation"])
+        res["violated"] = m.group(1) if m else None
     if rc == -9 and not simulate:
         raise ToolError(f"TLC timed out after {timeout}s on {module}/{cfg} (see {out_path})")
     if res["violation"] and not allow_violation:
